@@ -270,6 +270,8 @@ def apply_mutant(d, m):
 def main():
     ap = argparse.ArgumentParser()
     ap.add_argument('--only', default='')
+    ap.add_argument('--props', default='',
+                    help='with --all-props / --refactors: only these checks')
     ap.add_argument('--json-out', default='',
                     help='with --only: write the results to this file')
     ap.add_argument('--runs', type=int, default=0)
@@ -340,6 +342,8 @@ def main():
             rec = {'mutant': name, 'applied': True, 'tests_pass': ok,
                    'tests': tail, 'expected': m[1], 'checks': {}}
             targets = sorted(props.PROPS) if a.all_props else m[1]
+            if a.props and a.all_props:
+                targets = [t for t in targets if t in a.props.split(',')]
             for prop in targets:
                 rc, sigs, wall, tail_out = run_check(d, prop, a.runs, out)
                 rec['checks'][prop] = {'exit': rc, 'signatures': sigs[:6],
@@ -360,7 +364,10 @@ def main():
         alarms = [(r['mutant'], p_, c['exit']) for r in results
                   for p_, c in r.get('checks', {}).items() if c['exit'] != 0]
         print('refactorings: %d, alarms: %s' % (len(results), alarms))
-        if not a.only:
+        if a.json_out:
+            with open(a.json_out, 'w') as f:
+                json.dump({'scale': SCALE, 'results': results}, f, indent=1)
+        elif not a.only and not a.props:
             with open(os.path.join(VERIF, 'refactor_results.json'), 'w') as f:
                 json.dump({'scale': SCALE, 'results': results}, f, indent=1)
         return 0
